@@ -1,10 +1,11 @@
-import AsmjitVerif.Props.C01FrontMem
+import AsmjitVerif.Props.C01FrontMemG
 import AsmjitVerif.Lemmas.X86ParseMem
 /-!
 # C01 — memory-operand compositions for all three prefix kinds (EVEX incl. forced EVEX, VEX3, VEX2) and the four operand shapes
 
-`emitVexEvexM_base_bytes` gives the complete output of `EmitVexEvexM` on `[base64 + disp]`; `evexM_parsed` / `vex3M_parsed` / `vex2M_parsed` say what
-the independent parser makes of these bytes (shape independent); the `vexM_*_formOk` theorems put both together with the shape lemmas of the monitor.
+`AddrForm` collects what an address form has to provide (its ModRM / SIB / displacement bytes with their shape, the monitor's memory check on
+them, and the complete output of `EmitVexEvexM`); the `vexM_*_formOk` theorems are generic in it: they put the generic parse lemmas
+(`C01FrontMemG`), the address form and the shape lemmas of the monitor together. `addrForm_base` is the instance `[base64 + disp]`.
 -/
 set_option linter.constructorNameAsVariable false
 set_option linter.unusedSimpArgs false
@@ -44,13 +45,12 @@ theorem regNum_base (rb : BitVec 32) (hb : rb < 16#32) (B : Bool) (hB : B = rb.g
 /-- the memory check of the monitor on a parse whose ModRM / SIB / displacement are the parts of `[base64 + disp]` -/
 theorem memParts_checkMem (ctx : Spec.X86.Ctx) (rule : Rule) (p : Parsed) (opReg7 rb s : BitVec 32) (size : Nat) (d : BitVec 64)
     (hm64 : ctx.mode64 = true) (ho : opReg7 < 8#32) (hb : rb < 16#32) (hs6 : s ≤ 6#32)
-    (hpm : p.modrm = some (memHead opReg7 (rb &&& 7#32) (memVariant (rb &&& 7#32) (d.truncate 32) s)).1)
-    (hps : p.sib = (memHead opReg7 (rb &&& 7#32) (memVariant (rb &&& 7#32) (d.truncate 32) s)).2)
-    (hpd : p.dispSize = (memDisp (d.truncate 32) s (memVariant (rb &&& 7#32) (d.truncate 32) s)).length)
-    (hpv : p.disp = leNat (memDisp (d.truncate 32) s (memVariant (rb &&& 7#32) (d.truncate 32) s)))
-    (hpp : p.prefixes = []) (hpa : p.addr16 = false) (hpB : p.B = rb.getLsbD 3) (hpX : p.X = false)
+    (F : MemFields p (memHead opReg7 (rb &&& 7#32) (memVariant (rb &&& 7#32) (d.truncate 32) s)).1
+           (memHead opReg7 (rb &&& 7#32) (memVariant (rb &&& 7#32) (d.truncate 32) s)).2
+           (memDisp (d.truncate 32) s (memVariant (rb &&& 7#32) (d.truncate 32) s)) (rb.getLsbD 3) false)
     (hN : (if p.vexKind == 4 then disp8N rule p else 1) = 2 ^ s.toNat) :
     checkMem ctx rule p (memOpBase size rb d) = .ok () := by
+  obtain ⟨hpm, hps, hpd, hpv, hpp, hpa, hpB, hpX⟩ := F
   have hr7 : rb &&& 7#32 < 8#32 := by bv_decide
   have hvlt := memVariant_lt (rb &&& 7#32) (d.truncate 32) s
   have hv5 : memVariant (rb &&& 7#32) (d.truncate 32) s = 0 → rb &&& 7#32 ≠ 5#32 := by
@@ -174,474 +174,355 @@ theorem emitVexEvexM_base_bytes (c : Model.X86.Ctx) (opcode reg vvvvv rb : BitVe
         rw [emitModSib_base_parts c _ 0 _ 0#32 _ rb 0#32 0x0D#32 (memBase size rb d) imm n hts (by decide) (by decide), hoff, cdShift_cleared]
         simp [memMb, memSib, memDs]
 
-/-! ### what the parser makes of the three kinds of byte sequences (independent of the operand shape) -/
 
-/-- EVEX bytes with a `[base64 + disp]` operand; `hN` is the table-layer fact that the rule's disp8*N equals the scale the encoder's
-compressed-displacement table selects -/
-theorem evexM_parsed (ctx : Spec.X86.Ctx) (rule : Rule) (opcode reg vvvvv rb : BitVec 32) (size : Nat) (d : BitVec 64) (imm : List (BitVec 8))
-    (hm64 : ctx.mode64 = true)
-    (hr : reg < 32#32) (hv : vvvvv < 32#32) (hb : rb < 16#32) (hxop : opcode &&& 0x800#32 = 0#32)
-    (R : VexRuleM rule imm.length) (hs : rule.space = 2) (A : RowAgree rule opcode true)
-    (hs6 : cdShiftOf (evexCdOpcodeOf opcode) ≤ 6#32)
-    (hN : disp8Nf rule ((opcode >>> 29) &&& 3#32).toNat ((((opcode >>> 27) ||| (opcode >>> 28)) &&& 1#32) == 1#32) false =
-          2 ^ (cdShiftOf (evexCdOpcodeOf opcode)).toNat) :
-    ∃ p, parse true rule (le32 (evexWord (xR opcode 0#32 reg vvvvv rb 0#32) opcode) ++ [opcode.truncate 8] ++
-            (memMb ((reg + (vvvvv <<< 7)) &&& 7#32) rb (d.truncate 32) (cdShiftOf (evexCdOpcodeOf opcode)) ::
-              ((memSib ((reg + (vvvvv <<< 7)) &&& 7#32) rb (d.truncate 32) (cdShiftOf (evexCdOpcodeOf opcode))).toList ++
-               memDs rb (d.truncate 32) (cdShiftOf (evexCdOpcodeOf opcode)))) ++ imm) = .ok p ∧
-      VexParsedM rule p (memMb ((reg + (vvvvv <<< 7)) &&& 7#32) rb (d.truncate 32) (cdShiftOf (evexCdOpcodeOf opcode))) ∧
-      regNum p.R' p.R (bits (memMb ((reg + (vvvvv <<< 7)) &&& 7#32) rb (d.truncate 32) (cdShiftOf (evexCdOpcodeOf opcode))) 3 3) = reg.toNat ∧
-      regNum p.V' false p.vvvv = vvvvv.toNat ∧
-      checkMem ctx rule p (memOpBase size rb d) = .ok () ∧ p.imm = imm := by
-  obtain ⟨hop, hmap, hpp, hw, hl⟩ := A
-  have hs' : rule.space = 1 ∨ rule.space = 2 ∨ rule.space = 3 := Or.inr (Or.inl hs)
-  obtain ⟨-, e15, e14, e13, e12, e11, e8, e23, e19, e18, e16, e31, e29, e28, e27, e24⟩ :=
-    vex_evex_r_roundtrip opcode 0#32 reg vvvvv rb 0#32 hr hv (by bv_decide) (by decide) hxop (by decide)
-  have hb0 : (evexWord (xR opcode 0#32 reg vvvvv rb 0#32) opcode).truncate 8 = 0x62#8 := by
-    simp only [evexWord, xR, extractLLMMMMM, kLL_Mask, kMM_Mask, oEvex]; bv_decide
-  generalize hsdef : cdShiftOf (evexCdOpcodeOf opcode) = s at *
-  generalize hwdef : evexWord (xR opcode 0#32 reg vvvvv rb 0#32) opcode = w at *
-  have ho7 : (reg + (vvvvv <<< 7)) &&& 7#32 < 8#32 := by bv_decide
-  obtain ⟨hmodne, fsib, hdl, freg⟩ := memParts_shape ((reg + (vvvvv <<< 7)) &&& 7#32) rb (d.truncate 32) s ho7
-  simp only [le32, List.cons_append, List.nil_append, hb0, List.append_assoc]
-  have hparse := parse_evex_mem rule (BitVec.truncate 8 (w >>> 8)) (BitVec.truncate 8 (w >>> 16)) (BitVec.truncate 8 (w >>> 24)) (opcode.truncate 8)
-    (memMb ((reg + (vvvvv <<< 7)) &&& 7#32) rb (d.truncate 32) s) (memSib ((reg + (vvvvv <<< 7)) &&& 7#32) rb (d.truncate 32) s)
-    (memDs rb (d.truncate 32) s) imm hs R.hpp8 (by rcases R.hmk with h | h <;> simp [h]) (by simp only [bit]; bv_decide)
-    (by simp only [bit]; bv_decide) hmodne fsib hdl (by simp [R.himm, R.hrel]) R.hmoff
-  simp only [List.append_assoc] at hparse
-  refine ⟨_, hparse, ?P, ?hreg, ?hvv, ?hcm, rfl⟩
-  case P =>
-    refine ⟨Or.inr (Or.inr (Or.inl rfl)), rfl, rfl, rfl, hmodne, ?_, ?_, ?_, ?_, ?_, by simp, ?_⟩
-    · show (opcode.truncate 8 : BitVec 8).toNat = rule.opcode
-      rw [hop]; exact toNat_eq_of_zext _ _ (by omega) (by bv_decide)
-    · show bits _ 0 3 = rule.map
-      rw [hmap]; exact toNat_eq_of_zext _ _ (by omega) (by bv_decide)
-    · show bits _ 0 2 = ppWant rule
-      rw [hpp]; exact toNat_eq_of_zext _ _ (by omega) (by bv_decide)
-    · rw [wWant_nonlegacy rule hs']
-      rcases hw with h | h
-      · exact Or.inl h
-      · right
-        simp only [↓reduceIte] at h
-        have hc : ((opcode >>> 27) ||| (opcode >>> 28)) &&& 1#32 = 0#32 ∨ ((opcode >>> 27) ||| (opcode >>> 28)) &&& 1#32 = 1#32 := by bv_decide
-        rcases hc with hc | hc
-        · rw [h, hc]; simp only [bit]; simp; bv_decide
-        · rw [h, hc]; simp only [bit]; simp; bv_decide
-    · rcases hl with h | h
-      · exact Or.inl h
-      · right; show bits _ 5 2 = rule.l; rw [h]; exact toNat_eq_of_zext _ _ (by omega) (by bv_decide)
-    · intro _
-      refine ⟨?_, ?_, ?_, ?_⟩
-      · exact congrArg BitVec.toNat (show BitVec.extractLsb' 0 3 _ = 0#3 by bv_decide)
-      · simp only [bit]; bv_decide
-      · simp only [bit]; bv_decide
-      · show bits _ 0 3 < 8
-        have := (BitVec.extractLsb' 0 3 (BitVec.truncate 8 (w >>> 8))).isLt
-        exact this
-  case hreg =>
-    have freg' : bits (memMb ((reg + (vvvvv <<< 7)) &&& 7#32) rb (d.truncate 32) s) 3 3 = ((reg + (vvvvv <<< 7)) &&& 7#32).toNat := freg
-    rw [freg']
-    have e3 : ((reg + (vvvvv <<< 7)) &&& 7#32).toNat = (((reg + (vvvvv <<< 7)) &&& 7#32).truncate 3 : BitVec 3).toNat := by
-      have : ((reg + (vvvvv <<< 7)) &&& 7#32).toNat < 8 := by simpa [BitVec.lt_def] using ho7
-      rw [BitVec.truncate, BitVec.toNat_setWidth]; exact (Nat.mod_eq_of_lt this).symm
-    rw [e3]
-    exact regNum_eq _ _ _ reg (by simp only [bit]; bv_decide)
-  case hvv =>
-    exact regNum_eq4 _ _ vvvvv (by simp only [bit]; bv_decide)
-  case hcm =>
-    have hL : bits (BitVec.truncate 8 (w >>> 24)) 5 2 = ((opcode >>> 29) &&& 3#32).toNat := toNat_eq_of_zext _ _ (by omega) (by bv_decide)
-    have hW : bit (BitVec.truncate 8 (w >>> 16)) 7 = ((((opcode >>> 27) ||| (opcode >>> 28)) &&& 1#32) == 1#32) := by simp only [bit]; bv_decide
-    have hB : bit (BitVec.truncate 8 (w >>> 24)) 4 = false := by simp only [bit]; bv_decide
-    refine memParts_checkMem ctx rule _ ((reg + (vvvvv <<< 7)) &&& 7#32) rb s size d hm64 ho7 hb hs6 rfl rfl rfl rfl rfl rfl ?_ ?_ ?_
-    · show (!bit (BitVec.truncate 8 (w >>> 8)) 5) = rb.getLsbD 3
-      simp only [bit]; bv_decide
-    · show (!bit (BitVec.truncate 8 (w >>> 8)) 6) = false
-      simp only [bit]; bv_decide
-    · simp only [disp8N, hL, hW, hB, hN, beq_self_eq_true, ↓reduceIte]
+/-! ### address forms -/
 
-/-- VEX3 bytes (C4) with a `[base64 + disp]` operand: plain displacement (no compression: CDSHL is cleared on this path) -/
-theorem vex3M_parsed (ctx : Spec.X86.Ctx) (rule : Rule) (opcode reg vvvvv rb : BitVec 32) (size : Nat) (d : BitVec 64) (imm : List (BitVec 8))
-    (hm64 : ctx.mode64 = true)
-    (hr : reg < 16#32) (hv : vvvvv < 16#32) (hb : rb < 16#32) (hxop : opcode &&& 0x800#32 = 0#32) (hll : opcode &&& 0x40001000#32 = 0#32)
-    (R : VexRuleM rule imm.length) (hs : rule.space = 1) (A : RowAgree rule opcode false) :
-    ∃ p, parse true rule (le32 (vex3Word (vexPrep (xR opcode 0#32 reg vvvvv rb 0#32) opcode 0#32) opcode) ++
-            (memMb ((reg + (vvvvv <<< 7)) &&& 7#32) rb (d.truncate 32) 0#32 ::
-              ((memSib ((reg + (vvvvv <<< 7)) &&& 7#32) rb (d.truncate 32) 0#32).toList ++ memDs rb (d.truncate 32) 0#32)) ++ imm) = .ok p ∧
-      VexParsedM rule p (memMb ((reg + (vvvvv <<< 7)) &&& 7#32) rb (d.truncate 32) 0#32) ∧
-      regNum p.R' p.R (bits (memMb ((reg + (vvvvv <<< 7)) &&& 7#32) rb (d.truncate 32) 0#32) 3 3) = reg.toNat ∧
-      regNum p.V' false p.vvvv = vvvvv.toNat ∧
-      checkMem ctx rule p (memOpBase size rb d) = .ok () ∧ p.imm = imm := by
-  obtain ⟨hop, hmap, hpp, hw, hl⟩ := A
-  have hs' : rule.space = 1 ∨ rule.space = 2 ∨ rule.space = 3 := Or.inl hs
-  obtain ⟨e0, -, e15, e14, e13, e8, e23, e19, e18, e16, e24⟩ :=
-    vex3_r_roundtrip opcode 0#32 reg vvvvv rb hr hv hb (by decide) hll
-  have hb0 : (vex3Word (vexPrep (xR opcode 0#32 reg vvvvv rb 0#32) opcode 0#32) opcode).truncate 8 = 0xC4#8 := by
-    have := e0 hxop
-    bv_decide
-  generalize vex3Word (vexPrep (xR opcode 0#32 reg vvvvv rb 0#32) opcode 0#32) opcode = w at *
-  have ho7 : (reg + (vvvvv <<< 7)) &&& 7#32 < 8#32 := by bv_decide
-  obtain ⟨hmodne, fsib, hdl, freg⟩ := memParts_shape ((reg + (vvvvv <<< 7)) &&& 7#32) rb (d.truncate 32) 0#32 ho7
-  simp only [le32, List.cons_append, List.nil_append, hb0, List.append_assoc]
-  have hparse := parse_vex3_mem rule (BitVec.truncate 8 (w >>> 8)) (BitVec.truncate 8 (w >>> 16)) (BitVec.truncate 8 (w >>> 24))
-    (memMb ((reg + (vvvvv <<< 7)) &&& 7#32) rb (d.truncate 32) 0#32) (memSib ((reg + (vvvvv <<< 7)) &&& 7#32) rb (d.truncate 32) 0#32)
-    (memDs rb (d.truncate 32) 0#32) imm hs R.hpp8 (by rcases R.hmk with h | h <;> simp [h]) hmodne fsib hdl (by simp [R.himm, R.hrel]) R.hmoff
-  simp only [List.append_assoc] at hparse
-  refine ⟨_, hparse, ?P, ?hreg, ?hvv, ?hcm, rfl⟩
-  case P =>
-    refine ⟨Or.inr (Or.inl rfl), rfl, rfl, rfl, hmodne, ?_, ?_, ?_, ?_, ?_, ?_, by simp⟩
-    · show (BitVec.truncate 8 (w >>> 24)).toNat = rule.opcode
-      rw [hop]; exact toNat_eq_of_zext _ _ (by omega) (by bv_decide)
-    · show bits _ 0 5 = rule.map
-      rw [hmap]; exact toNat_eq_of_zext _ _ (by omega) (by bv_decide)
-    · show bits _ 0 2 = ppWant rule
-      rw [hpp]; exact toNat_eq_of_zext _ _ (by omega) (by bv_decide)
-    · rw [wWant_nonlegacy rule hs']
-      rcases hw with h | h
-      · exact Or.inl h
-      · right
-        simp only [Bool.false_eq_true, ↓reduceIte] at h
-        have hc : (opcode >>> 27) &&& 1#32 = 0#32 ∨ (opcode >>> 27) &&& 1#32 = 1#32 := by bv_decide
-        rcases hc with hc | hc
-        · rw [h, hc]; simp only [bit]; simp; bv_decide
-        · rw [h, hc]; simp only [bit]; simp; bv_decide
-    · rcases hl with h | h
-      · exact Or.inl h
-      · right; show bits _ 2 1 = rule.l; rw [h]; exact toNat_eq_of_zext _ _ (by omega) (by bv_decide)
-    · intro _
-      show bits _ 2 1 ≤ 1
-      have := (BitVec.extractLsb' 2 1 (BitVec.truncate 8 (w >>> 16))).isLt
-      simp only [bits]; omega
-  case hreg =>
-    have freg' : bits (memMb ((reg + (vvvvv <<< 7)) &&& 7#32) rb (d.truncate 32) 0#32) 3 3 = ((reg + (vvvvv <<< 7)) &&& 7#32).toNat := freg
-    rw [freg']
-    have e3 : ((reg + (vvvvv <<< 7)) &&& 7#32).toNat = (((reg + (vvvvv <<< 7)) &&& 7#32).truncate 3 : BitVec 3).toNat := by
-      have : ((reg + (vvvvv <<< 7)) &&& 7#32).toNat < 8 := by simpa [BitVec.lt_def] using ho7
-      rw [BitVec.truncate, BitVec.toNat_setWidth]; exact (Nat.mod_eq_of_lt this).symm
-    rw [e3]
-    exact regNum_eq _ _ _ reg (by simp only [bit]; bv_decide)
-  case hvv =>
-    exact regNum_eq4 _ _ vvvvv (by simp only [bit]; bv_decide)
-  case hcm =>
-    refine memParts_checkMem ctx rule _ ((reg + (vvvvv <<< 7)) &&& 7#32) rb 0#32 size d hm64 ho7 hb (by decide) rfl rfl rfl rfl rfl rfl ?_ ?_ ?_
-    · show (!bit (BitVec.truncate 8 (w >>> 8)) 5) = rb.getLsbD 3
-      simp only [bit]; bv_decide
-    · show (!bit (BitVec.truncate 8 (w >>> 8)) 6) = false
-      simp only [bit]; bv_decide
-    · rfl
+/-- What an address form provides: `m` / `mo` are the model / spec operand, `xb` packs the extension bits (bit 3 = B, bit 4 = X) the prefix carries,
+`mb o7 s` / `sib o7 s` / `ds o7 s` are the ModRM / SIB / displacement bytes for ModRM.reg = `o7` and compressed-displacement shift `s`. -/
+structure AddrForm (c : Model.X86.Ctx) (ctx : Spec.X86.Ctx) (m : Mem) (mo : MemOp) (xb : BitVec 32)
+    (mb : BitVec 32 → BitVec 32 → BitVec 8) (sib : BitVec 32 → BitVec 32 → Option (BitVec 8)) (ds : BitVec 32 → BitVec 32 → List (BitVec 8)) : Prop where
+  hxb : xb < 32#32
+  hwa : wantedAddrSize true mo = 64
+  hvsib : vsibOf mo = .none
+  hseg : mo.seg = 0
+  hbc : mo.bcst = 0
+  shape : ∀ o7 s, o7 < 8#32 → (bits (mb o7 s) 6 2 ≠ 3 ∧ (bits (mb o7 s) 0 3 == 4) = (sib o7 s).isSome ∧
+            (ds o7 s).length = dispLen (mb o7 s) (sib o7 s) ∧ bits (mb o7 s) 3 3 = o7.toNat)
+  chk : ∀ (rule : Rule) (p : Parsed) o7 s, o7 < 8#32 → s ≤ 6#32 → MemFields p (mb o7 s) (sib o7 s) (ds o7 s) (xb.getLsbD 3) (xb.getLsbD 4) →
+            (if p.vexKind == 4 then disp8N rule p else 1) = 2 ^ s.toNat → checkMem ctx rule p mo = .ok ()
+  emit : ∀ (opcode reg vvvvv : BitVec 32) (imm : BitVec 64) (n : Nat), reg < 32#32 → vvvvv < 32#32 → opcode &&& 0x800#32 = 0#32 →
+    emitVexEvexM c opcode 0#32 (reg + (vvvvv <<< 7)) m imm n =
+      .ok ((if c.vexFlag = false ∨ xR opcode 0#32 reg vvvvv xb 0#32 &&& 0x00D78110#32 ≠ 0#32 then
+              le32 (evexWord (xR opcode 0#32 reg vvvvv xb 0#32) opcode) ++ [opcode.truncate 8] ++
+                (mb ((reg + (vvvvv <<< 7)) &&& 7#32) (cdShiftOf (evexCdOpcodeOf opcode)) ::
+                  ((sib ((reg + (vvvvv <<< 7)) &&& 7#32) (cdShiftOf (evexCdOpcodeOf opcode))).toList ++
+                   ds ((reg + (vvvvv <<< 7)) &&& 7#32) (cdShiftOf (evexCdOpcodeOf opcode))))
+            else if vexPrep (xR opcode 0#32 reg vvvvv xb 0#32) opcode 0#32 &&& 0x8000807E#32 ≠ 0#32 then
+              le32 (vex3Word (vexPrep (xR opcode 0#32 reg vvvvv xb 0#32) opcode 0#32) opcode) ++
+                (mb ((reg + (vvvvv <<< 7)) &&& 7#32) 0#32 ::
+                  ((sib ((reg + (vvvvv <<< 7)) &&& 7#32) 0#32).toList ++ ds ((reg + (vvvvv <<< 7)) &&& 7#32) 0#32))
+            else
+              [0xC5#8, (vex2Byte (vexPrep (xR opcode 0#32 reg vvvvv xb 0#32) opcode 0#32)).truncate 8, opcode.truncate 8] ++
+                (mb ((reg + (vvvvv <<< 7)) &&& 7#32) 0#32 ::
+                  ((sib ((reg + (vvvvv <<< 7)) &&& 7#32) 0#32).toList ++ ds ((reg + (vvvvv <<< 7)) &&& 7#32) 0#32))) ++
+           emitImmediate imm n)
 
-/-- VEX2 bytes (C5) with a `[base64 + disp]` operand; chosen only when representable (base < 8, W = 0, map 0F) -/
-theorem vex2M_parsed (ctx : Spec.X86.Ctx) (rule : Rule) (opcode reg vvvvv rb : BitVec 32) (size : Nat) (d : BitVec 64) (imm : List (BitVec 8))
-    (hm64 : ctx.mode64 = true)
-    (hr : reg < 16#32) (hv : vvvvv < 16#32) (hb : rb < 16#32) (hll : opcode &&& 0x40001000#32 = 0#32) (hmm : opcode &&& 0x100#32 ≠ 0#32)
-    (h2 : vexPrep (xR opcode 0#32 reg vvvvv rb 0#32) opcode 0#32 &&& 0x8000803E#32 = 0#32)
-    (R : VexRuleM rule imm.length) (hs : rule.space = 1) (A : RowAgree rule opcode false) :
-    ∃ p, parse true rule ([0xC5#8, (vex2Byte (vexPrep (xR opcode 0#32 reg vvvvv rb 0#32) opcode 0#32)).truncate 8, opcode.truncate 8] ++
-            (memMb ((reg + (vvvvv <<< 7)) &&& 7#32) rb (d.truncate 32) 0#32 ::
-              ((memSib ((reg + (vvvvv <<< 7)) &&& 7#32) rb (d.truncate 32) 0#32).toList ++ memDs rb (d.truncate 32) 0#32)) ++ imm) = .ok p ∧
-      VexParsedM rule p (memMb ((reg + (vvvvv <<< 7)) &&& 7#32) rb (d.truncate 32) 0#32) ∧
-      regNum p.R' p.R (bits (memMb ((reg + (vvvvv <<< 7)) &&& 7#32) rb (d.truncate 32) 0#32) 3 3) = reg.toNat ∧
-      regNum p.V' false p.vvvv = vvvvv.toNat ∧
-      checkMem ctx rule p (memOpBase size rb d) = .ok () ∧ p.imm = imm := by
-  obtain ⟨hop, hmap, hpp, hw, hl⟩ := A
-  have hs' : rule.space = 1 ∨ rule.space = 2 ∨ rule.space = 3 := Or.inl hs
-  obtain ⟨hiff, hf⟩ := vex2_r_only_when_representable opcode 0#32 reg vvvvv rb hr hv hb (by decide) hll hmm
-  obtain ⟨hrm8, hW0, hmm0, -⟩ := hiff.mp h2
-  obtain ⟨e7, e3, e2, e0⟩ := hf h2
-  generalize (BitVec.truncate 8 (vex2Byte (vexPrep (xR opcode 0#32 reg vvvvv rb 0#32) opcode 0#32)) : BitVec 8) = b1 at *
-  have ho7 : (reg + (vvvvv <<< 7)) &&& 7#32 < 8#32 := by bv_decide
-  obtain ⟨hmodne, fsib, hdl, freg⟩ := memParts_shape ((reg + (vvvvv <<< 7)) &&& 7#32) rb (d.truncate 32) 0#32 ho7
-  simp only [List.cons_append, List.nil_append, List.append_assoc]
-  have hparse := parse_vex2_mem rule b1 (opcode.truncate 8)
-    (memMb ((reg + (vvvvv <<< 7)) &&& 7#32) rb (d.truncate 32) 0#32) (memSib ((reg + (vvvvv <<< 7)) &&& 7#32) rb (d.truncate 32) 0#32)
-    (memDs rb (d.truncate 32) 0#32) imm hs R.hpp8 (by rcases R.hmk with h | h <;> simp [h]) hmodne fsib hdl (by simp [R.himm, R.hrel]) R.hmoff
-  simp only [List.append_assoc] at hparse
-  refine ⟨_, hparse, ?P, ?hreg, ?hvv, ?hcm, rfl⟩
-  case P =>
-    refine ⟨Or.inl rfl, rfl, rfl, rfl, hmodne, ?_, ?_, ?_, ?_, ?_, ?_, by simp⟩
-    · show (opcode.truncate 8 : BitVec 8).toNat = rule.opcode
-      rw [hop]; exact toNat_eq_of_zext _ _ (by omega) (by bv_decide)
-    · show 1 = rule.map
-      rw [hmap]; exact (congrArg BitVec.toNat (show (opcode >>> 8) &&& 0xF#32 = 1#32 by bv_decide)).symm
-    · show bits _ 0 2 = ppWant rule
-      rw [hpp]; exact toNat_eq_of_zext _ _ (by omega) (by bv_decide)
-    · rw [wWant_nonlegacy rule hs']
-      rcases hw with h | h
-      · exact Or.inl h
-      · right
-        simp only [Bool.false_eq_true, ↓reduceIte] at h
-        have hc : (opcode >>> 27) &&& 1#32 = 0#32 := by bv_decide
-        rw [h, hc]; simp
-    · rcases hl with h | h
-      · exact Or.inl h
-      · right; show bits _ 2 1 = rule.l; rw [h]; exact toNat_eq_of_zext _ _ (by omega) (by bv_decide)
-    · intro _
-      show bits _ 2 1 ≤ 1
-      have := (BitVec.extractLsb' 2 1 b1).isLt
-      simp only [bits]; omega
-  case hreg =>
-    have freg' : bits (memMb ((reg + (vvvvv <<< 7)) &&& 7#32) rb (d.truncate 32) 0#32) 3 3 = ((reg + (vvvvv <<< 7)) &&& 7#32).toNat := freg
-    rw [freg']
-    have e3 : ((reg + (vvvvv <<< 7)) &&& 7#32).toNat = (((reg + (vvvvv <<< 7)) &&& 7#32).truncate 3 : BitVec 3).toNat := by
-      have : ((reg + (vvvvv <<< 7)) &&& 7#32).toNat < 8 := by simpa [BitVec.lt_def] using ho7
-      rw [BitVec.truncate, BitVec.toNat_setWidth]; exact (Nat.mod_eq_of_lt this).symm
-    rw [e3]
-    exact regNum_eq _ _ _ reg (by simp only [bit]; simp; bv_decide)
-  case hvv =>
-    exact regNum_eq4 _ _ vvvvv (by simp only [bit]; simp; bv_decide)
-  case hcm =>
-    refine memParts_checkMem ctx rule _ ((reg + (vvvvv <<< 7)) &&& 7#32) rb 0#32 size d hm64 ho7 hb (by decide) rfl rfl rfl rfl rfl rfl ?_ ?_ ?_
-    · show false = rb.getLsbD 3
-      bv_decide
-    · rfl
-    · rfl
+/-- the address form `[base64 + disp]` -/
+theorem addrForm_base (c : Model.X86.Ctx) (ctx : Spec.X86.Ctx) (rb : BitVec 32) (size : Nat) (d : BitVec 64)
+    (hm : c.mode64 = true) (hpe : c.preferEvex = false) (hk : c.extraId = 0#32) (hvs : c.vsib = false) (hts : c.tsib = false)
+    (hm64 : ctx.mode64 = true) (hb : rb < 16#32) :
+    AddrForm c ctx (memBase size rb d) (memOpBase size rb d) rb
+      (fun o7 s => memMb o7 rb (d.truncate 32) s) (fun o7 s => memSib o7 rb (d.truncate 32) s) (fun _ s => memDs rb (d.truncate 32) s) := by
+  refine ⟨by bv_decide, rfl, rfl, rfl, rfl, ?_, ?_, ?_⟩
+  · intro o7 s ho
+    exact memParts_shape o7 rb (d.truncate 32) s ho
+  · intro rule p o7 s ho hs6 F hN
+    have hx4 : rb.getLsbD 4 = false := by bv_decide
+    rw [hx4] at F
+    exact memParts_checkMem ctx rule p o7 rb s size d hm64 ho hb hs6 F hN
+  · intro opcode reg vvvvv imm n hr hv hxop
+    have hc1 : (xR opcode 0#32 reg vvvvv rb 0#32 &&& 0x00D78110#32 ≠ 0#32) ↔ (xR opcode 0#32 reg vvvvv rb 0#32 &&& 0x00D78150#32 ≠ 0#32) := by
+      simp only [xR, extractLLMMMMM, kLL_Mask, kMM_Mask, oEvex]
+      constructor <;> intro h <;> bv_decide
+    have hc3 : (vexPrep (xR opcode 0#32 reg vvvvv rb 0#32) opcode 0#32 &&& 0x8000807E#32 ≠ 0#32) ↔
+        (vexPrep (xR opcode 0#32 reg vvvvv rb 0#32) opcode 0#32 &&& 0x8000803E#32 ≠ 0#32) := by
+      simp only [vexPrep, xR, extractLLMMMMM, kLL_Mask, kMM_Mask, oEvex, oVex3]
+      constructor <;> intro h <;> bv_decide
+    rw [emitVexEvexM_base_bytes c opcode reg vvvvv rb size d imm n hm hpe hk hvs hts hr hv hb hxop]
+    simp only [hc1, hc3]
 
-/-! ### compositions: shape × prefix kind -/
+/-! ### compositions: shape × prefix kind, generic in the address form -/
 
-/-- shape [reg, vvvv, MEM = [base64 + disp]], EVEX rule: the bytes of `EmitVexEvexM` when the EVEX branch is taken (the instruction has no
+/-- shape [reg, vvvv, MEM], EVEX rule: the bytes of `EmitVexEvexM` when the EVEX branch is taken (the instruction has no
 VEX form, or a register / the opcode word needs EVEX) satisfy the monitor -/
-theorem vexM_rvm_formOk_evex (c : Model.X86.Ctx) (ctx : Spec.X86.Ctx) (rule : Rule) (opcode reg vvvvv rb : BitVec 32) (size : Nat) (d : BitVec 64)
+theorem vexM_rvm_formOk_evex (c : Model.X86.Ctx) (ctx : Spec.X86.Ctx) (rule : Rule) (opcode reg vvvvv xb : BitVec 32) (m : Mem) (mo : MemOp)
+    (mb : BitVec 32 → BitVec 32 → BitVec 8) (sib : BitVec 32 → BitVec 32 → Option (BitVec 8)) (ds : BitVec 32 → BitVec 32 → List (BitVec 8))
+    (AF : AddrForm c ctx m mo xb mb sib ds)
     (k0 k1 : RegKind) (f0 f1 f2 : FormOp)
-    (hcm : c.mode64 = true) (hpe : c.preferEvex = false) (hk : c.extraId = 0#32) (hvs : c.vsib = false) (hts : c.tsib = false)
     (hm64 : ctx.mode64 = true) (hmode : (rule.modes &&& 2 != 0) = true)
-    (hr : reg < 32#32) (hv : vvvvv < 32#32) (hb : rb < 16#32) (hxop : opcode &&& 0x800#32 = 0#32)
-    (hev : c.vexFlag = false ∨ xR opcode 0#32 reg vvvvv rb 0#32 &&& 0x00D78150#32 ≠ 0#32)
+    (hr : reg < 32#32) (hv : vvvvv < 32#32) (hxop : opcode &&& 0x800#32 = 0#32)
+    (hev : c.vexFlag = false ∨ xR opcode 0#32 reg vvvvv xb 0#32 &&& 0x00D78110#32 ≠ 0#32)
     (hk0 : PlainKind k0) (hk1 : PlainKind k1)
     (R : VexRuleM rule 0) (hs : rule.space = 2) (A : RowAgree rule opcode true)
     (hs6 : cdShiftOf (evexCdOpcodeOf opcode) ≤ 6#32)
     (hN : disp8Nf rule ((opcode >>> 29) &&& 3#32).toNat ((((opcode >>> 27) ||| (opcode >>> 28)) &&& 1#32) == 1#32) false =
           2 ^ (cdShiftOf (evexCdOpcodeOf opcode)).toNat)
     (hf0 : f0.role = .reg) (hf1 : f1.role = .vvvv) (hf2 : f2.role = .rm)
-    (hal : alignOps rule.oszEff rule.ops [.reg k0 reg.toNat, .reg k1 vvvvv.toNat, .mem (memOpBase size rb d)] =
-           some [(f0, some (.reg k0 reg.toNat)), (f1, some (.reg k1 vvvvv.toNat)), (f2, some (.mem (memOpBase size rb d)))]) :
-    ∃ bytes, emitVexEvexM c opcode 0#32 (reg + (vvvvv <<< 7)) (memBase size rb d) 0 0 = .ok bytes ∧
-      formOk ctx rule [.reg k0 reg.toNat, .reg k1 vvvvv.toNat, .mem (memOpBase size rb d)] {} bytes = true := by
-  rw [emitVexEvexM_base_bytes c opcode reg vvvvv rb size d 0 0 hcm hpe hk hvs hts hr hv hb hxop, if_pos hev]
+    (hal : alignOps rule.oszEff rule.ops [.reg k0 reg.toNat, .reg k1 vvvvv.toNat, .mem mo] =
+           some [(f0, some (.reg k0 reg.toNat)), (f1, some (.reg k1 vvvvv.toNat)), (f2, some (.mem mo))]) :
+    ∃ bytes, emitVexEvexM c opcode 0#32 (reg + (vvvvv <<< 7)) m 0 0 = .ok bytes ∧
+      formOk ctx rule [.reg k0 reg.toNat, .reg k1 vvvvv.toNat, .mem mo] {} bytes = true := by
+  rw [AF.emit opcode reg vvvvv 0 0 hr hv hxop, if_pos hev]
   refine ⟨_, rfl, ?_⟩
-  obtain ⟨p, hp, P, h0, h1, hc, hi⟩ := evexM_parsed ctx rule opcode reg vvvvv rb size d [] hm64 hr hv hb hxop R hs A hs6 hN
+  have ho7 : (reg + (vvvvv <<< 7)) &&& 7#32 < 8#32 := by bv_decide
+  obtain ⟨s1, s2, s3, s4⟩ := AF.shape _ (cdShiftOf (evexCdOpcodeOf opcode)) ho7
+  obtain ⟨p, hp, P, h0, h1, F, hNp, hi⟩ := evexG_parsed rule opcode reg vvvvv xb _ _ _ [] hr hv AF.hxb hxop R hs A s1 s2 s3 s4
+  have hc := AF.chk rule p _ _ ho7 hs6 F (by rw [hNp]; exact hN)
   simp only [emitImmediate] at *
-  exact vex_rvm_mem_formOk ctx rule p _ _ k0 k1 f0 f1 f2 _ _ _ hm64 hmode hk0 hk1 R hf0 hf1 hf2 rfl rfl rfl rfl hal hp P h0 h1 hc
+  exact vex_rvm_mem_formOk ctx rule p _ _ k0 k1 f0 f1 f2 _ _ _ hm64 hmode hk0 hk1 R hf0 hf1 hf2 AF.hwa AF.hvsib AF.hseg AF.hbc hal hp P h0 h1 hc
 
-/-- shape [reg, vvvv, MEM = [base64 + disp]], VEX rule: the VEX3 or VEX2 bytes `EmitVexEvexM` emits when EVEX is not needed satisfy the monitor -/
-theorem vexM_rvm_formOk_vex (c : Model.X86.Ctx) (ctx : Spec.X86.Ctx) (rule : Rule) (opcode reg vvvvv rb : BitVec 32) (size : Nat) (d : BitVec 64)
+/-- shape [reg, vvvv, MEM], VEX rule: the VEX3 or VEX2 bytes `EmitVexEvexM` emits when EVEX is not needed satisfy the monitor -/
+theorem vexM_rvm_formOk_vex (c : Model.X86.Ctx) (ctx : Spec.X86.Ctx) (rule : Rule) (opcode reg vvvvv xb : BitVec 32) (m : Mem) (mo : MemOp)
+    (mb : BitVec 32 → BitVec 32 → BitVec 8) (sib : BitVec 32 → BitVec 32 → Option (BitVec 8)) (ds : BitVec 32 → BitVec 32 → List (BitVec 8))
+    (AF : AddrForm c ctx m mo xb mb sib ds)
     (k0 k1 : RegKind) (f0 f1 f2 : FormOp)
-    (hcm : c.mode64 = true) (hpe : c.preferEvex = false) (hk : c.extraId = 0#32) (hvf : c.vexFlag = true) (hvs : c.vsib = false) (hts : c.tsib = false)
+    (hvf : c.vexFlag = true)
     (hm64 : ctx.mode64 = true) (hmode : (rule.modes &&& 2 != 0) = true)
-    (hr : reg < 16#32) (hv : vvvvv < 16#32) (hb : rb < 16#32) (hxop : opcode &&& 0x800#32 = 0#32) (hll : opcode &&& 0x40001000#32 = 0#32)
+    (hr : reg < 16#32) (hv : vvvvv < 16#32) (hxop : opcode &&& 0x800#32 = 0#32) (hll : opcode &&& 0x40001000#32 = 0#32)
     (hmm : opcode &&& 0x1F00#32 ≠ 0#32)
     (hk0 : PlainKind k0) (hk1 : PlainKind k1)
     (R : VexRuleM rule 0) (hs : rule.space = 1) (A : RowAgree rule opcode false)
     (hf0 : f0.role = .reg) (hf1 : f1.role = .vvvv) (hf2 : f2.role = .rm)
-    (hal : alignOps rule.oszEff rule.ops [.reg k0 reg.toNat, .reg k1 vvvvv.toNat, .mem (memOpBase size rb d)] =
-           some [(f0, some (.reg k0 reg.toNat)), (f1, some (.reg k1 vvvvv.toNat)), (f2, some (.mem (memOpBase size rb d)))]) :
-    ∃ bytes, emitVexEvexM c opcode 0#32 (reg + (vvvvv <<< 7)) (memBase size rb d) 0 0 = .ok bytes ∧
-      formOk ctx rule [.reg k0 reg.toNat, .reg k1 vvvvv.toNat, .mem (memOpBase size rb d)] {} bytes = true := by
-  have hnev : ¬ (c.vexFlag = false ∨ xR opcode 0#32 reg vvvvv rb 0#32 &&& 0x00D78150#32 ≠ 0#32) := by
-    rw [evex_r_chosen_iff opcode 0#32 reg vvvvv rb 0#32 (by bv_decide) (by bv_decide) (by bv_decide) (by decide) (by decide), hvf]
+    (hal : alignOps rule.oszEff rule.ops [.reg k0 reg.toNat, .reg k1 vvvvv.toNat, .mem mo] =
+           some [(f0, some (.reg k0 reg.toNat)), (f1, some (.reg k1 vvvvv.toNat)), (f2, some (.mem mo))]) :
+    ∃ bytes, emitVexEvexM c opcode 0#32 (reg + (vvvvv <<< 7)) m 0 0 = .ok bytes ∧
+      formOk ctx rule [.reg k0 reg.toNat, .reg k1 vvvvv.toNat, .mem mo] {} bytes = true := by
+  have hxb := AF.hxb
+  have hnev : ¬ (c.vexFlag = false ∨ xR opcode 0#32 reg vvvvv xb 0#32 &&& 0x00D78110#32 ≠ 0#32) := by
+    rw [hvf]
+    simp only [xR, extractLLMMMMM, kLL_Mask, kMM_Mask, oEvex]
     intro h
-    rcases h with h | h | h | h | h | h | h | h
+    rcases h with h | h
     · exact absurd h (by decide)
-    all_goals bv_decide
-  rw [emitVexEvexM_base_bytes c opcode reg vvvvv rb size d 0 0 hcm hpe hk hvs hts (by bv_decide) (by bv_decide) hb hxop, if_neg hnev]
-  by_cases h3 : vexPrep (xR opcode 0#32 reg vvvvv rb 0#32) opcode 0#32 &&& 0x8000803E#32 ≠ 0#32
+    · bv_decide
+  rw [AF.emit opcode reg vvvvv 0 0 (by bv_decide) (by bv_decide) hxop, if_neg hnev]
+  have ho7 : (reg + (vvvvv <<< 7)) &&& 7#32 < 8#32 := by bv_decide
+  obtain ⟨s1, s2, s3, s4⟩ := AF.shape _ 0#32 ho7
+  by_cases h3 : vexPrep (xR opcode 0#32 reg vvvvv xb 0#32) opcode 0#32 &&& 0x8000807E#32 ≠ 0#32
   · rw [if_pos h3]
     refine ⟨_, rfl, ?_⟩
-    obtain ⟨p, hp, P, h0, h1, hc, hi⟩ := vex3M_parsed ctx rule opcode reg vvvvv rb size d [] hm64 hr hv hb hxop hll R hs A
+    obtain ⟨p, hp, P, h0, h1, F, hNp, hi⟩ := vex3G_parsed rule opcode reg vvvvv xb _ _ _ [] hr hv hxb hxop hll R hs A s1 s2 s3 s4
+    have hc := AF.chk rule p _ _ ho7 (by decide) F (by rw [hNp]; rfl)
     simp only [emitImmediate] at *
-    exact vex_rvm_mem_formOk ctx rule p _ _ k0 k1 f0 f1 f2 _ _ _ hm64 hmode hk0 hk1 R hf0 hf1 hf2 rfl rfl rfl rfl hal hp P h0 h1 hc
+    exact vex_rvm_mem_formOk ctx rule p _ _ k0 k1 f0 f1 f2 _ _ _ hm64 hmode hk0 hk1 R hf0 hf1 hf2 AF.hwa AF.hvsib AF.hseg AF.hbc hal hp P h0 h1 hc
   · rw [if_neg h3]
     refine ⟨_, rfl, ?_⟩
-    have h3' : vexPrep (xR opcode 0#32 reg vvvvv rb 0#32) opcode 0#32 &&& 0x8000803E#32 = 0#32 := by simpa using h3
+    have h3' : vexPrep (xR opcode 0#32 reg vvvvv xb 0#32) opcode 0#32 &&& 0x8000807E#32 = 0#32 := by simpa using h3
     have hmm1 : opcode &&& 0x100#32 ≠ 0#32 := by
       simp only [vexPrep, xR, extractLLMMMMM, kLL_Mask, kMM_Mask, oEvex, oVex3] at h3'
       bv_decide
-    obtain ⟨p, hp, P, h0, h1, hc, hi⟩ := vex2M_parsed ctx rule opcode reg vvvvv rb size d [] hm64 hr hv hb hll hmm1 h3' R hs A
+    obtain ⟨p, hp, P, h0, h1, F, hNp, hi⟩ := vex2G_parsed rule opcode reg vvvvv xb _ _ _ [] hr hv hxb hll hmm1 h3' R hs A s1 s2 s3 s4
+    have hc := AF.chk rule p _ _ ho7 (by decide) F (by rw [hNp]; rfl)
     simp only [emitImmediate] at *
-    exact vex_rvm_mem_formOk ctx rule p _ _ k0 k1 f0 f1 f2 _ _ _ hm64 hmode hk0 hk1 R hf0 hf1 hf2 rfl rfl rfl rfl hal hp P h0 h1 hc
+    exact vex_rvm_mem_formOk ctx rule p _ _ k0 k1 f0 f1 f2 _ _ _ hm64 hmode hk0 hk1 R hf0 hf1 hf2 AF.hwa AF.hvsib AF.hseg AF.hbc hal hp P h0 h1 hc
 
-
-/-- shape [reg, MEM = [base64 + disp]], EVEX rule: the bytes of `EmitVexEvexM` when the EVEX branch is taken (the instruction has no
+/-- shape [reg, MEM], EVEX rule: the bytes of `EmitVexEvexM` when the EVEX branch is taken (the instruction has no
 VEX form, or a register / the opcode word needs EVEX) satisfy the monitor -/
-theorem vexM_rm_formOk_evex (c : Model.X86.Ctx) (ctx : Spec.X86.Ctx) (rule : Rule) (opcode reg rb : BitVec 32) (size : Nat) (d : BitVec 64)
+theorem vexM_rm_formOk_evex (c : Model.X86.Ctx) (ctx : Spec.X86.Ctx) (rule : Rule) (opcode reg xb : BitVec 32) (m : Mem) (mo : MemOp)
+    (mb : BitVec 32 → BitVec 32 → BitVec 8) (sib : BitVec 32 → BitVec 32 → Option (BitVec 8)) (ds : BitVec 32 → BitVec 32 → List (BitVec 8))
+    (AF : AddrForm c ctx m mo xb mb sib ds)
     (k0 : RegKind) (f0 f2 : FormOp)
-    (hcm : c.mode64 = true) (hpe : c.preferEvex = false) (hk : c.extraId = 0#32) (hvs : c.vsib = false) (hts : c.tsib = false)
     (hm64 : ctx.mode64 = true) (hmode : (rule.modes &&& 2 != 0) = true)
-    (hr : reg < 32#32) (hb : rb < 16#32) (hxop : opcode &&& 0x800#32 = 0#32)
-    (hev : c.vexFlag = false ∨ xR opcode 0#32 reg 0#32 rb 0#32 &&& 0x00D78150#32 ≠ 0#32)
+    (hr : reg < 32#32) (hxop : opcode &&& 0x800#32 = 0#32)
+    (hev : c.vexFlag = false ∨ xR opcode 0#32 reg 0#32 xb 0#32 &&& 0x00D78110#32 ≠ 0#32)
     (hk0 : PlainKind k0)
     (R : VexRuleM rule 0) (hs : rule.space = 2) (A : RowAgree rule opcode true)
     (hs6 : cdShiftOf (evexCdOpcodeOf opcode) ≤ 6#32)
     (hN : disp8Nf rule ((opcode >>> 29) &&& 3#32).toNat ((((opcode >>> 27) ||| (opcode >>> 28)) &&& 1#32) == 1#32) false =
           2 ^ (cdShiftOf (evexCdOpcodeOf opcode)).toNat)
     (hf0 : f0.role = .reg) (hf2 : f2.role = .rm)
-    (hal : alignOps rule.oszEff rule.ops [.reg k0 reg.toNat, .mem (memOpBase size rb d)] =
-           some [(f0, some (.reg k0 reg.toNat)), (f2, some (.mem (memOpBase size rb d)))]) :
-    ∃ bytes, emitVexEvexM c opcode 0#32 (reg + (0#32 <<< 7)) (memBase size rb d) 0 0 = .ok bytes ∧
-      formOk ctx rule [.reg k0 reg.toNat, .mem (memOpBase size rb d)] {} bytes = true := by
-  rw [emitVexEvexM_base_bytes c opcode reg 0#32 rb size d 0 0 hcm hpe hk hvs hts hr (by decide) hb hxop, if_pos hev]
+    (hal : alignOps rule.oszEff rule.ops [.reg k0 reg.toNat, .mem mo] =
+           some [(f0, some (.reg k0 reg.toNat)), (f2, some (.mem mo))]) :
+    ∃ bytes, emitVexEvexM c opcode 0#32 (reg + (0#32 <<< 7)) m 0 0 = .ok bytes ∧
+      formOk ctx rule [.reg k0 reg.toNat, .mem mo] {} bytes = true := by
+  rw [AF.emit opcode reg 0#32 0 0 hr (by decide) hxop, if_pos hev]
   refine ⟨_, rfl, ?_⟩
-  obtain ⟨p, hp, P, h0, h1, hc, hi⟩ := evexM_parsed ctx rule opcode reg 0#32 rb size d [] hm64 hr (by decide) hb hxop R hs A hs6 hN
+  have ho7 : (reg + (0#32 <<< 7)) &&& 7#32 < 8#32 := by bv_decide
+  obtain ⟨s1, s2, s3, s4⟩ := AF.shape _ (cdShiftOf (evexCdOpcodeOf opcode)) ho7
+  obtain ⟨p, hp, P, h0, h1, F, hNp, hi⟩ := evexG_parsed rule opcode reg 0#32 xb _ _ _ [] hr (by decide) AF.hxb hxop R hs A s1 s2 s3 s4
+  have hc := AF.chk rule p _ _ ho7 hs6 F (by rw [hNp]; exact hN)
   simp only [emitImmediate] at *
-  exact vex_rm_mem_formOk ctx rule p _ _ k0 f0 f2 _ _ hm64 hmode hk0 R hf0 hf2 rfl rfl rfl rfl hal hp P h0 h1 hc
+  exact vex_rm_mem_formOk ctx rule p _ _ k0 f0 f2 _ _ hm64 hmode hk0 R hf0 hf2 AF.hwa AF.hvsib AF.hseg AF.hbc hal hp P h0 h1 hc
 
-/-- shape [reg, MEM = [base64 + disp]], VEX rule: the VEX3 or VEX2 bytes `EmitVexEvexM` emits when EVEX is not needed satisfy the monitor -/
-theorem vexM_rm_formOk_vex (c : Model.X86.Ctx) (ctx : Spec.X86.Ctx) (rule : Rule) (opcode reg rb : BitVec 32) (size : Nat) (d : BitVec 64)
+/-- shape [reg, MEM], VEX rule: the VEX3 or VEX2 bytes `EmitVexEvexM` emits when EVEX is not needed satisfy the monitor -/
+theorem vexM_rm_formOk_vex (c : Model.X86.Ctx) (ctx : Spec.X86.Ctx) (rule : Rule) (opcode reg xb : BitVec 32) (m : Mem) (mo : MemOp)
+    (mb : BitVec 32 → BitVec 32 → BitVec 8) (sib : BitVec 32 → BitVec 32 → Option (BitVec 8)) (ds : BitVec 32 → BitVec 32 → List (BitVec 8))
+    (AF : AddrForm c ctx m mo xb mb sib ds)
     (k0 : RegKind) (f0 f2 : FormOp)
-    (hcm : c.mode64 = true) (hpe : c.preferEvex = false) (hk : c.extraId = 0#32) (hvf : c.vexFlag = true) (hvs : c.vsib = false) (hts : c.tsib = false)
+    (hvf : c.vexFlag = true)
     (hm64 : ctx.mode64 = true) (hmode : (rule.modes &&& 2 != 0) = true)
-    (hr : reg < 16#32) (hb : rb < 16#32) (hxop : opcode &&& 0x800#32 = 0#32) (hll : opcode &&& 0x40001000#32 = 0#32)
+    (hr : reg < 16#32) (hxop : opcode &&& 0x800#32 = 0#32) (hll : opcode &&& 0x40001000#32 = 0#32)
     (hmm : opcode &&& 0x1F00#32 ≠ 0#32)
     (hk0 : PlainKind k0)
     (R : VexRuleM rule 0) (hs : rule.space = 1) (A : RowAgree rule opcode false)
     (hf0 : f0.role = .reg) (hf2 : f2.role = .rm)
-    (hal : alignOps rule.oszEff rule.ops [.reg k0 reg.toNat, .mem (memOpBase size rb d)] =
-           some [(f0, some (.reg k0 reg.toNat)), (f2, some (.mem (memOpBase size rb d)))]) :
-    ∃ bytes, emitVexEvexM c opcode 0#32 (reg + (0#32 <<< 7)) (memBase size rb d) 0 0 = .ok bytes ∧
-      formOk ctx rule [.reg k0 reg.toNat, .mem (memOpBase size rb d)] {} bytes = true := by
-  have hnev : ¬ (c.vexFlag = false ∨ xR opcode 0#32 reg 0#32 rb 0#32 &&& 0x00D78150#32 ≠ 0#32) := by
-    rw [evex_r_chosen_iff opcode 0#32 reg 0#32 rb 0#32 (by bv_decide) (by bv_decide) (by bv_decide) (by decide) (by decide), hvf]
+    (hal : alignOps rule.oszEff rule.ops [.reg k0 reg.toNat, .mem mo] =
+           some [(f0, some (.reg k0 reg.toNat)), (f2, some (.mem mo))]) :
+    ∃ bytes, emitVexEvexM c opcode 0#32 (reg + (0#32 <<< 7)) m 0 0 = .ok bytes ∧
+      formOk ctx rule [.reg k0 reg.toNat, .mem mo] {} bytes = true := by
+  have hxb := AF.hxb
+  have hnev : ¬ (c.vexFlag = false ∨ xR opcode 0#32 reg 0#32 xb 0#32 &&& 0x00D78110#32 ≠ 0#32) := by
+    rw [hvf]
+    simp only [xR, extractLLMMMMM, kLL_Mask, kMM_Mask, oEvex]
     intro h
-    rcases h with h | h | h | h | h | h | h | h
+    rcases h with h | h
     · exact absurd h (by decide)
-    all_goals bv_decide
-  rw [emitVexEvexM_base_bytes c opcode reg 0#32 rb size d 0 0 hcm hpe hk hvs hts (by bv_decide) (by bv_decide) hb hxop, if_neg hnev]
-  by_cases h3 : vexPrep (xR opcode 0#32 reg 0#32 rb 0#32) opcode 0#32 &&& 0x8000803E#32 ≠ 0#32
+    · bv_decide
+  rw [AF.emit opcode reg 0#32 0 0 (by bv_decide) (by bv_decide) hxop, if_neg hnev]
+  have ho7 : (reg + (0#32 <<< 7)) &&& 7#32 < 8#32 := by bv_decide
+  obtain ⟨s1, s2, s3, s4⟩ := AF.shape _ 0#32 ho7
+  by_cases h3 : vexPrep (xR opcode 0#32 reg 0#32 xb 0#32) opcode 0#32 &&& 0x8000807E#32 ≠ 0#32
   · rw [if_pos h3]
     refine ⟨_, rfl, ?_⟩
-    obtain ⟨p, hp, P, h0, h1, hc, hi⟩ := vex3M_parsed ctx rule opcode reg 0#32 rb size d [] hm64 hr (by decide) hb hxop hll R hs A
+    obtain ⟨p, hp, P, h0, h1, F, hNp, hi⟩ := vex3G_parsed rule opcode reg 0#32 xb _ _ _ [] hr (by decide) hxb hxop hll R hs A s1 s2 s3 s4
+    have hc := AF.chk rule p _ _ ho7 (by decide) F (by rw [hNp]; rfl)
     simp only [emitImmediate] at *
-    exact vex_rm_mem_formOk ctx rule p _ _ k0 f0 f2 _ _ hm64 hmode hk0 R hf0 hf2 rfl rfl rfl rfl hal hp P h0 h1 hc
+    exact vex_rm_mem_formOk ctx rule p _ _ k0 f0 f2 _ _ hm64 hmode hk0 R hf0 hf2 AF.hwa AF.hvsib AF.hseg AF.hbc hal hp P h0 h1 hc
   · rw [if_neg h3]
     refine ⟨_, rfl, ?_⟩
-    have h3' : vexPrep (xR opcode 0#32 reg 0#32 rb 0#32) opcode 0#32 &&& 0x8000803E#32 = 0#32 := by simpa using h3
+    have h3' : vexPrep (xR opcode 0#32 reg 0#32 xb 0#32) opcode 0#32 &&& 0x8000807E#32 = 0#32 := by simpa using h3
     have hmm1 : opcode &&& 0x100#32 ≠ 0#32 := by
       simp only [vexPrep, xR, extractLLMMMMM, kLL_Mask, kMM_Mask, oEvex, oVex3] at h3'
       bv_decide
-    obtain ⟨p, hp, P, h0, h1, hc, hi⟩ := vex2M_parsed ctx rule opcode reg 0#32 rb size d [] hm64 hr (by decide) hb hll hmm1 h3' R hs A
+    obtain ⟨p, hp, P, h0, h1, F, hNp, hi⟩ := vex2G_parsed rule opcode reg 0#32 xb _ _ _ [] hr (by decide) hxb hll hmm1 h3' R hs A s1 s2 s3 s4
+    have hc := AF.chk rule p _ _ ho7 (by decide) F (by rw [hNp]; rfl)
     simp only [emitImmediate] at *
-    exact vex_rm_mem_formOk ctx rule p _ _ k0 f0 f2 _ _ hm64 hmode hk0 R hf0 hf2 rfl rfl rfl rfl hal hp P h0 h1 hc
+    exact vex_rm_mem_formOk ctx rule p _ _ k0 f0 f2 _ _ hm64 hmode hk0 R hf0 hf2 AF.hwa AF.hvsib AF.hseg AF.hbc hal hp P h0 h1 hc
 
-
-/-- shape [reg, vvvv, MEM = [base64 + disp], imm8], EVEX rule: the bytes of `EmitVexEvexM` when the EVEX branch is taken (the instruction has no
+/-- shape [reg, vvvv, MEM, imm8], EVEX rule: the bytes of `EmitVexEvexM` when the EVEX branch is taken (the instruction has no
 VEX form, or a register / the opcode word needs EVEX) satisfy the monitor -/
-theorem vexM_rvmi_formOk_evex (c : Model.X86.Ctx) (ctx : Spec.X86.Ctx) (rule : Rule) (opcode reg vvvvv rb : BitVec 32) (size : Nat) (d : BitVec 64)
+theorem vexM_rvmi_formOk_evex (c : Model.X86.Ctx) (ctx : Spec.X86.Ctx) (rule : Rule) (opcode reg vvvvv xb : BitVec 32) (m : Mem) (mo : MemOp)
+    (mb : BitVec 32 → BitVec 32 → BitVec 8) (sib : BitVec 32 → BitVec 32 → Option (BitVec 8)) (ds : BitVec 32 → BitVec 32 → List (BitVec 8))
+    (AF : AddrForm c ctx m mo xb mb sib ds)
     (k0 k1 : RegKind) (f0 f1 f2 : FormOp)
-    (hcm : c.mode64 = true) (hpe : c.preferEvex = false) (hk : c.extraId = 0#32) (hvs : c.vsib = false) (hts : c.tsib = false)
     (hm64 : ctx.mode64 = true) (hmode : (rule.modes &&& 2 != 0) = true)
-    (hr : reg < 32#32) (hv : vvvvv < 32#32) (hb : rb < 16#32) (hxop : opcode &&& 0x800#32 = 0#32)
-    (hev : c.vexFlag = false ∨ xR opcode 0#32 reg vvvvv rb 0#32 &&& 0x00D78150#32 ≠ 0#32)
+    (hr : reg < 32#32) (hv : vvvvv < 32#32) (hxop : opcode &&& 0x800#32 = 0#32)
+    (hev : c.vexFlag = false ∨ xR opcode 0#32 reg vvvvv xb 0#32 &&& 0x00D78110#32 ≠ 0#32)
     (hk0 : PlainKind k0) (hk1 : PlainKind k1)
     (R : VexRuleM rule 1) (f3 : FormOp) (imm : BitVec 64) (hf3 : f3.role = .imm) (hib : immBitsOf f3 = 8) (hs : rule.space = 2) (A : RowAgree rule opcode true)
     (hs6 : cdShiftOf (evexCdOpcodeOf opcode) ≤ 6#32)
     (hN : disp8Nf rule ((opcode >>> 29) &&& 3#32).toNat ((((opcode >>> 27) ||| (opcode >>> 28)) &&& 1#32) == 1#32) false =
           2 ^ (cdShiftOf (evexCdOpcodeOf opcode)).toNat)
     (hf0 : f0.role = .reg) (hf1 : f1.role = .vvvv) (hf2 : f2.role = .rm)
-    (hal : alignOps rule.oszEff rule.ops [.reg k0 reg.toNat, .reg k1 vvvvv.toNat, .mem (memOpBase size rb d), .imm imm] =
-           some [(f0, some (.reg k0 reg.toNat)), (f1, some (.reg k1 vvvvv.toNat)), (f2, some (.mem (memOpBase size rb d))), (f3, some (.imm imm))]) :
-    ∃ bytes, emitVexEvexM c opcode 0#32 (reg + (vvvvv <<< 7)) (memBase size rb d) imm 1 = .ok bytes ∧
-      formOk ctx rule [.reg k0 reg.toNat, .reg k1 vvvvv.toNat, .mem (memOpBase size rb d), .imm imm] {} bytes = true := by
-  rw [emitVexEvexM_base_bytes c opcode reg vvvvv rb size d imm 1 hcm hpe hk hvs hts hr hv hb hxop, if_pos hev]
+    (hal : alignOps rule.oszEff rule.ops [.reg k0 reg.toNat, .reg k1 vvvvv.toNat, .mem mo, .imm imm] =
+           some [(f0, some (.reg k0 reg.toNat)), (f1, some (.reg k1 vvvvv.toNat)), (f2, some (.mem mo)), (f3, some (.imm imm))]) :
+    ∃ bytes, emitVexEvexM c opcode 0#32 (reg + (vvvvv <<< 7)) m imm 1 = .ok bytes ∧
+      formOk ctx rule [.reg k0 reg.toNat, .reg k1 vvvvv.toNat, .mem mo, .imm imm] {} bytes = true := by
+  rw [AF.emit opcode reg vvvvv imm 1 hr hv hxop, if_pos hev]
   refine ⟨_, rfl, ?_⟩
-  obtain ⟨p, hp, P, h0, h1, hc, hi⟩ := evexM_parsed ctx rule opcode reg vvvvv rb size d [imm.truncate 8] hm64 hr hv hb hxop R hs A hs6 hN
+  have ho7 : (reg + (vvvvv <<< 7)) &&& 7#32 < 8#32 := by bv_decide
+  obtain ⟨s1, s2, s3, s4⟩ := AF.shape _ (cdShiftOf (evexCdOpcodeOf opcode)) ho7
+  obtain ⟨p, hp, P, h0, h1, F, hNp, hi⟩ := evexG_parsed rule opcode reg vvvvv xb _ _ _ [imm.truncate 8] hr hv AF.hxb hxop R hs A s1 s2 s3 s4
+  have hc := AF.chk rule p _ _ ho7 hs6 F (by rw [hNp]; exact hN)
   simp only [emitImmediate] at *
-  exact vex_rvmi_mem_formOk ctx rule p _ _ k0 k1 f0 f1 f2 _ _ _ hm64 hmode hk0 hk1 R f3 imm hf3 hib (by simp [hi]) hf0 hf1 hf2 rfl rfl rfl rfl hal hp P h0 h1 hc
+  exact vex_rvmi_mem_formOk ctx rule p _ _ k0 k1 f0 f1 f2 _ _ _ hm64 hmode hk0 hk1 R f3 imm hf3 hib (by simp [hi]) hf0 hf1 hf2 AF.hwa AF.hvsib AF.hseg AF.hbc hal hp P h0 h1 hc
 
-/-- shape [reg, vvvv, MEM = [base64 + disp], imm8], VEX rule: the VEX3 or VEX2 bytes `EmitVexEvexM` emits when EVEX is not needed satisfy the monitor -/
-theorem vexM_rvmi_formOk_vex (c : Model.X86.Ctx) (ctx : Spec.X86.Ctx) (rule : Rule) (opcode reg vvvvv rb : BitVec 32) (size : Nat) (d : BitVec 64)
+/-- shape [reg, vvvv, MEM, imm8], VEX rule: the VEX3 or VEX2 bytes `EmitVexEvexM` emits when EVEX is not needed satisfy the monitor -/
+theorem vexM_rvmi_formOk_vex (c : Model.X86.Ctx) (ctx : Spec.X86.Ctx) (rule : Rule) (opcode reg vvvvv xb : BitVec 32) (m : Mem) (mo : MemOp)
+    (mb : BitVec 32 → BitVec 32 → BitVec 8) (sib : BitVec 32 → BitVec 32 → Option (BitVec 8)) (ds : BitVec 32 → BitVec 32 → List (BitVec 8))
+    (AF : AddrForm c ctx m mo xb mb sib ds)
     (k0 k1 : RegKind) (f0 f1 f2 : FormOp)
-    (hcm : c.mode64 = true) (hpe : c.preferEvex = false) (hk : c.extraId = 0#32) (hvf : c.vexFlag = true) (hvs : c.vsib = false) (hts : c.tsib = false)
+    (hvf : c.vexFlag = true)
     (hm64 : ctx.mode64 = true) (hmode : (rule.modes &&& 2 != 0) = true)
-    (hr : reg < 16#32) (hv : vvvvv < 16#32) (hb : rb < 16#32) (hxop : opcode &&& 0x800#32 = 0#32) (hll : opcode &&& 0x40001000#32 = 0#32)
+    (hr : reg < 16#32) (hv : vvvvv < 16#32) (hxop : opcode &&& 0x800#32 = 0#32) (hll : opcode &&& 0x40001000#32 = 0#32)
     (hmm : opcode &&& 0x1F00#32 ≠ 0#32)
     (hk0 : PlainKind k0) (hk1 : PlainKind k1)
     (R : VexRuleM rule 1) (f3 : FormOp) (imm : BitVec 64) (hf3 : f3.role = .imm) (hib : immBitsOf f3 = 8) (hs : rule.space = 1) (A : RowAgree rule opcode false)
     (hf0 : f0.role = .reg) (hf1 : f1.role = .vvvv) (hf2 : f2.role = .rm)
-    (hal : alignOps rule.oszEff rule.ops [.reg k0 reg.toNat, .reg k1 vvvvv.toNat, .mem (memOpBase size rb d), .imm imm] =
-           some [(f0, some (.reg k0 reg.toNat)), (f1, some (.reg k1 vvvvv.toNat)), (f2, some (.mem (memOpBase size rb d))), (f3, some (.imm imm))]) :
-    ∃ bytes, emitVexEvexM c opcode 0#32 (reg + (vvvvv <<< 7)) (memBase size rb d) imm 1 = .ok bytes ∧
-      formOk ctx rule [.reg k0 reg.toNat, .reg k1 vvvvv.toNat, .mem (memOpBase size rb d), .imm imm] {} bytes = true := by
-  have hnev : ¬ (c.vexFlag = false ∨ xR opcode 0#32 reg vvvvv rb 0#32 &&& 0x00D78150#32 ≠ 0#32) := by
-    rw [evex_r_chosen_iff opcode 0#32 reg vvvvv rb 0#32 (by bv_decide) (by bv_decide) (by bv_decide) (by decide) (by decide), hvf]
+    (hal : alignOps rule.oszEff rule.ops [.reg k0 reg.toNat, .reg k1 vvvvv.toNat, .mem mo, .imm imm] =
+           some [(f0, some (.reg k0 reg.toNat)), (f1, some (.reg k1 vvvvv.toNat)), (f2, some (.mem mo)), (f3, some (.imm imm))]) :
+    ∃ bytes, emitVexEvexM c opcode 0#32 (reg + (vvvvv <<< 7)) m imm 1 = .ok bytes ∧
+      formOk ctx rule [.reg k0 reg.toNat, .reg k1 vvvvv.toNat, .mem mo, .imm imm] {} bytes = true := by
+  have hxb := AF.hxb
+  have hnev : ¬ (c.vexFlag = false ∨ xR opcode 0#32 reg vvvvv xb 0#32 &&& 0x00D78110#32 ≠ 0#32) := by
+    rw [hvf]
+    simp only [xR, extractLLMMMMM, kLL_Mask, kMM_Mask, oEvex]
     intro h
-    rcases h with h | h | h | h | h | h | h | h
+    rcases h with h | h
     · exact absurd h (by decide)
-    all_goals bv_decide
-  rw [emitVexEvexM_base_bytes c opcode reg vvvvv rb size d imm 1 hcm hpe hk hvs hts (by bv_decide) (by bv_decide) hb hxop, if_neg hnev]
-  by_cases h3 : vexPrep (xR opcode 0#32 reg vvvvv rb 0#32) opcode 0#32 &&& 0x8000803E#32 ≠ 0#32
+    · bv_decide
+  rw [AF.emit opcode reg vvvvv imm 1 (by bv_decide) (by bv_decide) hxop, if_neg hnev]
+  have ho7 : (reg + (vvvvv <<< 7)) &&& 7#32 < 8#32 := by bv_decide
+  obtain ⟨s1, s2, s3, s4⟩ := AF.shape _ 0#32 ho7
+  by_cases h3 : vexPrep (xR opcode 0#32 reg vvvvv xb 0#32) opcode 0#32 &&& 0x8000807E#32 ≠ 0#32
   · rw [if_pos h3]
     refine ⟨_, rfl, ?_⟩
-    obtain ⟨p, hp, P, h0, h1, hc, hi⟩ := vex3M_parsed ctx rule opcode reg vvvvv rb size d [imm.truncate 8] hm64 hr hv hb hxop hll R hs A
+    obtain ⟨p, hp, P, h0, h1, F, hNp, hi⟩ := vex3G_parsed rule opcode reg vvvvv xb _ _ _ [imm.truncate 8] hr hv hxb hxop hll R hs A s1 s2 s3 s4
+    have hc := AF.chk rule p _ _ ho7 (by decide) F (by rw [hNp]; rfl)
     simp only [emitImmediate] at *
-    exact vex_rvmi_mem_formOk ctx rule p _ _ k0 k1 f0 f1 f2 _ _ _ hm64 hmode hk0 hk1 R f3 imm hf3 hib (by simp [hi]) hf0 hf1 hf2 rfl rfl rfl rfl hal hp P h0 h1 hc
+    exact vex_rvmi_mem_formOk ctx rule p _ _ k0 k1 f0 f1 f2 _ _ _ hm64 hmode hk0 hk1 R f3 imm hf3 hib (by simp [hi]) hf0 hf1 hf2 AF.hwa AF.hvsib AF.hseg AF.hbc hal hp P h0 h1 hc
   · rw [if_neg h3]
     refine ⟨_, rfl, ?_⟩
-    have h3' : vexPrep (xR opcode 0#32 reg vvvvv rb 0#32) opcode 0#32 &&& 0x8000803E#32 = 0#32 := by simpa using h3
+    have h3' : vexPrep (xR opcode 0#32 reg vvvvv xb 0#32) opcode 0#32 &&& 0x8000807E#32 = 0#32 := by simpa using h3
     have hmm1 : opcode &&& 0x100#32 ≠ 0#32 := by
       simp only [vexPrep, xR, extractLLMMMMM, kLL_Mask, kMM_Mask, oEvex, oVex3] at h3'
       bv_decide
-    obtain ⟨p, hp, P, h0, h1, hc, hi⟩ := vex2M_parsed ctx rule opcode reg vvvvv rb size d [imm.truncate 8] hm64 hr hv hb hll hmm1 h3' R hs A
+    obtain ⟨p, hp, P, h0, h1, F, hNp, hi⟩ := vex2G_parsed rule opcode reg vvvvv xb _ _ _ [imm.truncate 8] hr hv hxb hll hmm1 h3' R hs A s1 s2 s3 s4
+    have hc := AF.chk rule p _ _ ho7 (by decide) F (by rw [hNp]; rfl)
     simp only [emitImmediate] at *
-    exact vex_rvmi_mem_formOk ctx rule p _ _ k0 k1 f0 f1 f2 _ _ _ hm64 hmode hk0 hk1 R f3 imm hf3 hib (by simp [hi]) hf0 hf1 hf2 rfl rfl rfl rfl hal hp P h0 h1 hc
+    exact vex_rvmi_mem_formOk ctx rule p _ _ k0 k1 f0 f1 f2 _ _ _ hm64 hmode hk0 hk1 R f3 imm hf3 hib (by simp [hi]) hf0 hf1 hf2 AF.hwa AF.hvsib AF.hseg AF.hbc hal hp P h0 h1 hc
 
-
-/-- shape [reg, MEM = [base64 + disp], imm8], EVEX rule: the bytes of `EmitVexEvexM` when the EVEX branch is taken (the instruction has no
+/-- shape [reg, MEM, imm8], EVEX rule: the bytes of `EmitVexEvexM` when the EVEX branch is taken (the instruction has no
 VEX form, or a register / the opcode word needs EVEX) satisfy the monitor -/
-theorem vexM_rmi_formOk_evex (c : Model.X86.Ctx) (ctx : Spec.X86.Ctx) (rule : Rule) (opcode reg rb : BitVec 32) (size : Nat) (d : BitVec 64)
+theorem vexM_rmi_formOk_evex (c : Model.X86.Ctx) (ctx : Spec.X86.Ctx) (rule : Rule) (opcode reg xb : BitVec 32) (m : Mem) (mo : MemOp)
+    (mb : BitVec 32 → BitVec 32 → BitVec 8) (sib : BitVec 32 → BitVec 32 → Option (BitVec 8)) (ds : BitVec 32 → BitVec 32 → List (BitVec 8))
+    (AF : AddrForm c ctx m mo xb mb sib ds)
     (k0 : RegKind) (f0 f2 : FormOp)
-    (hcm : c.mode64 = true) (hpe : c.preferEvex = false) (hk : c.extraId = 0#32) (hvs : c.vsib = false) (hts : c.tsib = false)
     (hm64 : ctx.mode64 = true) (hmode : (rule.modes &&& 2 != 0) = true)
-    (hr : reg < 32#32) (hb : rb < 16#32) (hxop : opcode &&& 0x800#32 = 0#32)
-    (hev : c.vexFlag = false ∨ xR opcode 0#32 reg 0#32 rb 0#32 &&& 0x00D78150#32 ≠ 0#32)
+    (hr : reg < 32#32) (hxop : opcode &&& 0x800#32 = 0#32)
+    (hev : c.vexFlag = false ∨ xR opcode 0#32 reg 0#32 xb 0#32 &&& 0x00D78110#32 ≠ 0#32)
     (hk0 : PlainKind k0)
     (R : VexRuleM rule 1) (f3 : FormOp) (imm : BitVec 64) (hf3 : f3.role = .imm) (hib : immBitsOf f3 = 8) (hs : rule.space = 2) (A : RowAgree rule opcode true)
     (hs6 : cdShiftOf (evexCdOpcodeOf opcode) ≤ 6#32)
     (hN : disp8Nf rule ((opcode >>> 29) &&& 3#32).toNat ((((opcode >>> 27) ||| (opcode >>> 28)) &&& 1#32) == 1#32) false =
           2 ^ (cdShiftOf (evexCdOpcodeOf opcode)).toNat)
     (hf0 : f0.role = .reg) (hf2 : f2.role = .rm)
-    (hal : alignOps rule.oszEff rule.ops [.reg k0 reg.toNat, .mem (memOpBase size rb d), .imm imm] =
-           some [(f0, some (.reg k0 reg.toNat)), (f2, some (.mem (memOpBase size rb d))), (f3, some (.imm imm))]) :
-    ∃ bytes, emitVexEvexM c opcode 0#32 (reg + (0#32 <<< 7)) (memBase size rb d) imm 1 = .ok bytes ∧
-      formOk ctx rule [.reg k0 reg.toNat, .mem (memOpBase size rb d), .imm imm] {} bytes = true := by
-  rw [emitVexEvexM_base_bytes c opcode reg 0#32 rb size d imm 1 hcm hpe hk hvs hts hr (by decide) hb hxop, if_pos hev]
+    (hal : alignOps rule.oszEff rule.ops [.reg k0 reg.toNat, .mem mo, .imm imm] =
+           some [(f0, some (.reg k0 reg.toNat)), (f2, some (.mem mo)), (f3, some (.imm imm))]) :
+    ∃ bytes, emitVexEvexM c opcode 0#32 (reg + (0#32 <<< 7)) m imm 1 = .ok bytes ∧
+      formOk ctx rule [.reg k0 reg.toNat, .mem mo, .imm imm] {} bytes = true := by
+  rw [AF.emit opcode reg 0#32 imm 1 hr (by decide) hxop, if_pos hev]
   refine ⟨_, rfl, ?_⟩
-  obtain ⟨p, hp, P, h0, h1, hc, hi⟩ := evexM_parsed ctx rule opcode reg 0#32 rb size d [imm.truncate 8] hm64 hr (by decide) hb hxop R hs A hs6 hN
+  have ho7 : (reg + (0#32 <<< 7)) &&& 7#32 < 8#32 := by bv_decide
+  obtain ⟨s1, s2, s3, s4⟩ := AF.shape _ (cdShiftOf (evexCdOpcodeOf opcode)) ho7
+  obtain ⟨p, hp, P, h0, h1, F, hNp, hi⟩ := evexG_parsed rule opcode reg 0#32 xb _ _ _ [imm.truncate 8] hr (by decide) AF.hxb hxop R hs A s1 s2 s3 s4
+  have hc := AF.chk rule p _ _ ho7 hs6 F (by rw [hNp]; exact hN)
   simp only [emitImmediate] at *
-  exact vex_rmi_mem_formOk ctx rule p _ _ k0 f0 f2 _ _ hm64 hmode hk0 R f3 imm hf3 hib (by simp [hi]) hf0 hf2 rfl rfl rfl rfl hal hp P h0 h1 hc
+  exact vex_rmi_mem_formOk ctx rule p _ _ k0 f0 f2 _ _ hm64 hmode hk0 R f3 imm hf3 hib (by simp [hi]) hf0 hf2 AF.hwa AF.hvsib AF.hseg AF.hbc hal hp P h0 h1 hc
 
-/-- shape [reg, MEM = [base64 + disp], imm8], VEX rule: the VEX3 or VEX2 bytes `EmitVexEvexM` emits when EVEX is not needed satisfy the monitor -/
-theorem vexM_rmi_formOk_vex (c : Model.X86.Ctx) (ctx : Spec.X86.Ctx) (rule : Rule) (opcode reg rb : BitVec 32) (size : Nat) (d : BitVec 64)
+/-- shape [reg, MEM, imm8], VEX rule: the VEX3 or VEX2 bytes `EmitVexEvexM` emits when EVEX is not needed satisfy the monitor -/
+theorem vexM_rmi_formOk_vex (c : Model.X86.Ctx) (ctx : Spec.X86.Ctx) (rule : Rule) (opcode reg xb : BitVec 32) (m : Mem) (mo : MemOp)
+    (mb : BitVec 32 → BitVec 32 → BitVec 8) (sib : BitVec 32 → BitVec 32 → Option (BitVec 8)) (ds : BitVec 32 → BitVec 32 → List (BitVec 8))
+    (AF : AddrForm c ctx m mo xb mb sib ds)
     (k0 : RegKind) (f0 f2 : FormOp)
-    (hcm : c.mode64 = true) (hpe : c.preferEvex = false) (hk : c.extraId = 0#32) (hvf : c.vexFlag = true) (hvs : c.vsib = false) (hts : c.tsib = false)
+    (hvf : c.vexFlag = true)
     (hm64 : ctx.mode64 = true) (hmode : (rule.modes &&& 2 != 0) = true)
-    (hr : reg < 16#32) (hb : rb < 16#32) (hxop : opcode &&& 0x800#32 = 0#32) (hll : opcode &&& 0x40001000#32 = 0#32)
+    (hr : reg < 16#32) (hxop : opcode &&& 0x800#32 = 0#32) (hll : opcode &&& 0x40001000#32 = 0#32)
     (hmm : opcode &&& 0x1F00#32 ≠ 0#32)
     (hk0 : PlainKind k0)
     (R : VexRuleM rule 1) (f3 : FormOp) (imm : BitVec 64) (hf3 : f3.role = .imm) (hib : immBitsOf f3 = 8) (hs : rule.space = 1) (A : RowAgree rule opcode false)
     (hf0 : f0.role = .reg) (hf2 : f2.role = .rm)
-    (hal : alignOps rule.oszEff rule.ops [.reg k0 reg.toNat, .mem (memOpBase size rb d), .imm imm] =
-           some [(f0, some (.reg k0 reg.toNat)), (f2, some (.mem (memOpBase size rb d))), (f3, some (.imm imm))]) :
-    ∃ bytes, emitVexEvexM c opcode 0#32 (reg + (0#32 <<< 7)) (memBase size rb d) imm 1 = .ok bytes ∧
-      formOk ctx rule [.reg k0 reg.toNat, .mem (memOpBase size rb d), .imm imm] {} bytes = true := by
-  have hnev : ¬ (c.vexFlag = false ∨ xR opcode 0#32 reg 0#32 rb 0#32 &&& 0x00D78150#32 ≠ 0#32) := by
-    rw [evex_r_chosen_iff opcode 0#32 reg 0#32 rb 0#32 (by bv_decide) (by bv_decide) (by bv_decide) (by decide) (by decide), hvf]
+    (hal : alignOps rule.oszEff rule.ops [.reg k0 reg.toNat, .mem mo, .imm imm] =
+           some [(f0, some (.reg k0 reg.toNat)), (f2, some (.mem mo)), (f3, some (.imm imm))]) :
+    ∃ bytes, emitVexEvexM c opcode 0#32 (reg + (0#32 <<< 7)) m imm 1 = .ok bytes ∧
+      formOk ctx rule [.reg k0 reg.toNat, .mem mo, .imm imm] {} bytes = true := by
+  have hxb := AF.hxb
+  have hnev : ¬ (c.vexFlag = false ∨ xR opcode 0#32 reg 0#32 xb 0#32 &&& 0x00D78110#32 ≠ 0#32) := by
+    rw [hvf]
+    simp only [xR, extractLLMMMMM, kLL_Mask, kMM_Mask, oEvex]
     intro h
-    rcases h with h | h | h | h | h | h | h | h
+    rcases h with h | h
     · exact absurd h (by decide)
-    all_goals bv_decide
-  rw [emitVexEvexM_base_bytes c opcode reg 0#32 rb size d imm 1 hcm hpe hk hvs hts (by bv_decide) (by bv_decide) hb hxop, if_neg hnev]
-  by_cases h3 : vexPrep (xR opcode 0#32 reg 0#32 rb 0#32) opcode 0#32 &&& 0x8000803E#32 ≠ 0#32
+    · bv_decide
+  rw [AF.emit opcode reg 0#32 imm 1 (by bv_decide) (by bv_decide) hxop, if_neg hnev]
+  have ho7 : (reg + (0#32 <<< 7)) &&& 7#32 < 8#32 := by bv_decide
+  obtain ⟨s1, s2, s3, s4⟩ := AF.shape _ 0#32 ho7
+  by_cases h3 : vexPrep (xR opcode 0#32 reg 0#32 xb 0#32) opcode 0#32 &&& 0x8000807E#32 ≠ 0#32
   · rw [if_pos h3]
     refine ⟨_, rfl, ?_⟩
-    obtain ⟨p, hp, P, h0, h1, hc, hi⟩ := vex3M_parsed ctx rule opcode reg 0#32 rb size d [imm.truncate 8] hm64 hr (by decide) hb hxop hll R hs A
+    obtain ⟨p, hp, P, h0, h1, F, hNp, hi⟩ := vex3G_parsed rule opcode reg 0#32 xb _ _ _ [imm.truncate 8] hr (by decide) hxb hxop hll R hs A s1 s2 s3 s4
+    have hc := AF.chk rule p _ _ ho7 (by decide) F (by rw [hNp]; rfl)
     simp only [emitImmediate] at *
-    exact vex_rmi_mem_formOk ctx rule p _ _ k0 f0 f2 _ _ hm64 hmode hk0 R f3 imm hf3 hib (by simp [hi]) hf0 hf2 rfl rfl rfl rfl hal hp P h0 h1 hc
+    exact vex_rmi_mem_formOk ctx rule p _ _ k0 f0 f2 _ _ hm64 hmode hk0 R f3 imm hf3 hib (by simp [hi]) hf0 hf2 AF.hwa AF.hvsib AF.hseg AF.hbc hal hp P h0 h1 hc
   · rw [if_neg h3]
     refine ⟨_, rfl, ?_⟩
-    have h3' : vexPrep (xR opcode 0#32 reg 0#32 rb 0#32) opcode 0#32 &&& 0x8000803E#32 = 0#32 := by simpa using h3
+    have h3' : vexPrep (xR opcode 0#32 reg 0#32 xb 0#32) opcode 0#32 &&& 0x8000807E#32 = 0#32 := by simpa using h3
     have hmm1 : opcode &&& 0x100#32 ≠ 0#32 := by
       simp only [vexPrep, xR, extractLLMMMMM, kLL_Mask, kMM_Mask, oEvex, oVex3] at h3'
       bv_decide
-    obtain ⟨p, hp, P, h0, h1, hc, hi⟩ := vex2M_parsed ctx rule opcode reg 0#32 rb size d [imm.truncate 8] hm64 hr (by decide) hb hll hmm1 h3' R hs A
+    obtain ⟨p, hp, P, h0, h1, F, hNp, hi⟩ := vex2G_parsed rule opcode reg 0#32 xb _ _ _ [imm.truncate 8] hr (by decide) hxb hll hmm1 h3' R hs A s1 s2 s3 s4
+    have hc := AF.chk rule p _ _ ho7 (by decide) F (by rw [hNp]; rfl)
     simp only [emitImmediate] at *
-    exact vex_rmi_mem_formOk ctx rule p _ _ k0 f0 f2 _ _ hm64 hmode hk0 R f3 imm hf3 hib (by simp [hi]) hf0 hf2 rfl rfl rfl rfl hal hp P h0 h1 hc
+    exact vex_rmi_mem_formOk ctx rule p _ _ k0 f0 f2 _ _ hm64 hmode hk0 R f3 imm hf3 hib (by simp [hi]) hf0 hf2 AF.hwa AF.hvsib AF.hseg AF.hbc hal hp P h0 h1 hc
 
 end AsmjitVerif.Props.C01
